@@ -1,6 +1,7 @@
 #!/bin/bash
 # Offline set-up: sanity-check the tools and warm the per-crate Kani build caches
-# (/verif/.cache, git-ignored). Checks rebuild incrementally from /repo's working tree.
+# (/verif/.cache, git-ignored): dependencies are compiled once here; every check then
+# rebuilds the harness crate and the /repo crates incrementally from /repo's working tree.
 set -u
 cd "$(dirname "$0")"
 export CARGO_NET_OFFLINE=true
@@ -8,14 +9,26 @@ for t in cargo-kani cbmc goto-cc goto-instrument z3-new cvc5 python3; do
   command -v $t >/dev/null || { echo "missing tool: $t"; exit 1; }
 done
 mkdir -p .cache evidence replays
-for c in hx-client hx-protocol hx-server; do
-  [ -d engines/kani/$c ] || continue
-  cp /repo/Cargo.lock engines/kani/$c/Cargo.lock
-  ( cd engines/kani/$c && timeout 2400 cargo kani --target-dir /verif/.cache/target-$c --only-codegen -Z restrict-vtable -Z stubbing >/verif/.cache/setup-$c.log 2>&1 ) &
-done
-wait
-for c in hx-client hx-protocol hx-server; do
-  [ -d engines/kani/$c ] || continue
-  tail -1 .cache/setup-$c.log
-done
-echo setup done
+python3 - <<'PY'
+import os, sys, concurrent.futures as cf
+sys.path.insert(0, "/verif/engines")
+import kplus, registry, runner
+warm = {"hx-client": "c13_constant_a0", "hx-protocol": "c05_rt_ok", "hx-server": "s_fanout_n0_r2", "hx-topic": "t_pubsub_shutdown_p0"}
+def one(item):
+    crate, h = item
+    pre = registry.PREPARE.get(crate)
+    d = pre("/tmp") if pre else os.path.join(runner.KANI_DIR, crate)
+    try:
+        m, w = kplus.codegen(d, os.path.join(runner.CACHE, f"target-{crate}"), os.path.join(runner.CACHE, f"setup-{crate}.log"), harnesses=[h], timeout=3000)
+        return f"{crate}: dependencies built, {len(m)} harness compiled in {w:.0f}s"
+    except Exception as e:
+        return f"{crate}: FAILED {e}"
+with cf.ThreadPoolExecutor(4) as ex:
+    res = list(ex.map(one, warm.items()))
+print("\n".join(res))
+sys.exit(1 if any("FAILED" in r for r in res) else 0)
+PY
+rc=$?
+# native build of the C07 replay helper's dependency (selium-protocol) is done lazily by the check
+echo "setup done rc=$rc"
+exit $rc
